@@ -72,12 +72,14 @@ Definition spec_read (snap : kvmap) (r : rd) : list (option entry) :=
   | _ => []
   end.
 
-Definition check_read (v : variant) (snap : kvmap) (r : rd) : bool :=
+(* [with_spec = false]: implementation against the transcribed adapter model only (used to confirm
+   that a model variant reproduces a defect); [check] always uses [true] *)
+Definition check_read (with_spec : bool) (v : variant) (snap : kvmap) (r : rd) : bool :=
   match r with
   | RGet k res => obytes_eqb (m_get snap k) res
   | RMGet ks res => list_eqb obytes_eqb (multi_get snap ks) res
   | RPrefix _ _ obs | RRange _ _ _ obs =>
-      obs_match (model_read v snap r) obs && obs_match (spec_read snap r) obs
+      obs_match (model_read v snap r) obs && (negb with_spec || obs_match (spec_read snap r) obs)
   end.
 
 Definition sop_of (s : step) : option sop :=
@@ -88,29 +90,29 @@ Definition sop_of (s : step) : option sop :=
   | SRead _ _ => None
   end.
 
-Fixpoint check_steps (pol : policy) (mo : merge_op) (v : variant) (st : sstate) (steps : list step) : bool :=
+Fixpoint check_steps (ws : bool) (pol : policy) (mo : merge_op) (v : variant) (st : sstate) (steps : list step) : bool :=
   match steps with
   | [] => true
   | s :: rest =>
       match s with
       | SRead rid r =>
           match reader_view st rid with
-          | Some snap => check_read v snap r && check_steps pol mo v st rest
+          | Some snap => check_read ws v snap r && check_steps ws pol mo v st rest
           | None => false
           end
       | SBatch ops ok =>
           match store_step pol mo st (OpBatch ops) with
-          | Some st' => ok && check_steps pol mo v st' rest
+          | Some st' => ok && check_steps ws pol mo v st' rest
           | None => false
           end
       | SOpen rid =>
           match store_step pol mo st (OpOpen rid) with
-          | Some st' => check_steps pol mo v st' rest
+          | Some st' => check_steps ws pol mo v st' rest
           | None => false
           end
       | SClose rid =>
           match store_step pol mo st (OpClose rid) with
-          | Some st' => check_steps pol mo v st' rest
+          | Some st' => check_steps ws pol mo v st' rest
           | None => false
           end
       end
@@ -118,13 +120,15 @@ Fixpoint check_steps (pol : policy) (mo : merge_op) (v : variant) (st : sstate) 
 
 Definition init_state : sstate := {| st_map := []; st_readers := [] |}.
 
-Definition check (c : case) : bool :=
+Definition check_gen (ws : bool) (c : case) : bool :=
   match c with
   | CSeq store mo steps =>
-      check_steps (policy_of_store store) (mo_of mo) (variant_of_store store) init_state steps
+      check_steps ws (policy_of_store store) (mo_of mo) (variant_of_store store) init_state steps
   | CMopFull key ex operands impl => obytes_eqb (udc_full key ex operands) impl
   | CMopPartial key l r impl => obytes_eqb (udc_partial key l r) impl
   end.
+Definition check : case -> bool := check_gen true.
+Definition check_model_only : case -> bool := check_gen false.
 
 (* what the model / spec expected, for replay files *)
 Inductive expl :=
